@@ -18,7 +18,7 @@ of these functions that alters behaviour breaks an obligation here without any t
 (written by tools/mkrprops.py)
 -/
 namespace Arimaa
-open Gen GameState Arimaa.Gen.Rs Arimaa.Rt Arimaa.Gen.Bridge
+open Gen GameState Arimaa.Gen.Rs Arimaa.Rt Arimaa.Gen.Bridge Spec
 
 theorem C04_value_of_ok {α : Type} {x : Res α} {p : Bool} {v w : α} (h : x = Res.guard p v) (hx : x = .ok w) :
     p = false ∧ w = v := by
@@ -41,5 +41,13 @@ theorem C04_code_result (s : GameState) (r : Option Terminal)
     (h : GameState_is_terminal s = .ok r) : r = s.isTerminal := by
   simp only [bridge_GameState_is_terminal] at h
   exact (C04_value_of_ok (RsAgree.is_terminal_eq s) h).2
+
+/-- **C04 for the code as it is now**: at the start of a turn, whatever the regenerated `is_terminal` returns is
+the result of the official decision list (`Spec.result`) on the abstracted board -/
+theorem C04_code_turn_start (s : GameState) (pp : PlayPhase) (hph : s.phase = .play pp) (hw : WF s.board)
+    (h0 : pp.step = 0) (hpps : pp.pps = .none) (r : Option Terminal) (h : GameState_is_terminal s = .ok r) :
+    r.map toSpecResult = Spec.result (absBoard s.board) s.p1Turn := by
+  rw [C04_code_result s r h]
+  exact C04_turn_start_spec s pp hph hw h0 hpps
 
 end Arimaa
